@@ -64,6 +64,29 @@ TARGETS = [
         ("Validator", "set_next_counterparty_commit_num", "C03", "C03_fn_validator_set_next_counterparty_commit_num", "filter"),
         ("Validator", "set_next_counterparty_revoke_num", "C03", "C03_fn_validator_set_next_counterparty_revoke_num", "filter"),
     ]),
+    dict(area="SimpleState", rel="vls-core/src/policy/simple_validator.rs", consts=["vls-core/src/policy/mod.rs"],
+         structs=["vls-core/src/policy/validator.rs"],
+         # logging-only macros of the file (dropped like debug!; `scoped_debug_return!` yields a guard object that only
+         # logs when dropped: value `()`, the assignment `*debug_on_return = false` is dropped with it)
+         log_macros=["dbgvals", "policy_log", "scoped_debug_return"],
+         # the content rules `validate_commitment_tx` are an external `… -> Rs.M Unit` (C05's subject); the selectors of
+         # EnforcementState are externals that may overflow (instantiated with the generated Gen.FnEnforce bodies in the
+         # tying theorems); the HTLC deltas are only logged; secp is opaque
+         externals={
+             "self.validate_commitment_tx": {"params": ["EnforcementState", "u64", "PublicKey", "ChannelSetup", "ChainState",
+                                                        "CommitmentInfo2"], "ret": "Result<(), ValidationError>", "monadic": True},
+             "CommitmentInfo2.delta_offered_htlcs": {"params": ["CommitmentInfo2"], "ret": "(HtlcDelta, HtlcDelta)"},
+             "CommitmentInfo2.delta_received_htlcs": {"params": ["CommitmentInfo2"], "ret": "(HtlcDelta, HtlcDelta)"},
+             "EnforcementState.get_previous_counterparty_point": {"params": ["u64"], "ret": "Option<PublicKey>", "partial": True},
+             "EnforcementState.get_previous_counterparty_commit_info": {"params": ["u64"], "ret": "Option<CommitmentInfo2>",
+                                                                        "partial": True},
+             "Secp256k1::signing_only": {"params": [], "ret": "SecpCtx"},
+             "PublicKey::from_secret_key": {"params": ["SecpCtx", "SecretKey"], "ret": "PublicKey"},
+         }, fns=[
+        ("SimpleValidator", "validate_holder_commitment_tx", "C02", "C02_fn_validate_holder_commitment_tx"),
+        ("SimpleValidator", "validate_counterparty_commitment_tx", "C03", "C03_fn_validate_counterparty_commitment_tx"),
+        ("SimpleValidator", "validate_counterparty_revocation", "C03", "C03_fn_validate_counterparty_revocation"),
+    ]),
     dict(area="Secrets", rel="vls-core/src/policy/validator.rs", consts=[],
          # the compact BOLT-3 store of counterparty revocation secrets (copied from LDK); the hash is a declared external
          externals={
@@ -147,8 +170,10 @@ FIXTURE_PROP = "FIX"    # functions of harness/src/props/fn_gen_fixture.rs: diff
 
 
 def unit_for(repo, tg):
-    return Unit(repo, tg["rel"], "VlsModel.Gen.Fn" + tg["area"], tg.get("consts", ()), tg.get("externals", {}),
-                tg.get("structs", ()), foreign_structs=tg.get("foreign_structs"), tuple_structs=tg.get("tuple_structs"))
+    u = Unit(repo, tg["rel"], "VlsModel.Gen.Fn" + tg["area"], tg.get("consts", ()), tg.get("externals", {}),
+             tg.get("structs", ()), foreign_structs=tg.get("foreign_structs"), tuple_structs=tg.get("tuple_structs"))
+    u.log_macros = tuple(tg.get("log_macros", ()))     # declared logging-only macros of the file
+    return u
 
 
 def census(repo, tgs=None, units=None):
